@@ -1281,7 +1281,7 @@ seq_t dtw_warping_paths_ndim(seq_t *wps,
     // D. Rows: MAX(overlap_left_ri, overlap_right_ri) < ri <= l1
     // [x 0 0 0 0]
     // [x x 0 0 0]
-    min_ci = MAX(0, p.ri3 + 1 - p.window - p.ldiff );
+    min_ci = MAX(0, p.ri3 + 1 - p.window - p.ldiffr );
     wpsi_start = 2;
     if (p.ri2 == p.ri3) {
         // C is skipped
@@ -1668,7 +1668,7 @@ seq_t dtw_warping_paths_ndim_euclidean(seq_t *wps,
     // D. Rows: MAX(overlap_left_ri, overlap_right_ri) < ri <= l1
     // [x 0 0 0 0]
     // [x x 0 0 0]
-    min_ci = MAX(0, p.ri3 + 1 - p.window - p.ldiff );
+    min_ci = MAX(0, p.ri3 + 1 - p.window - p.ldiffr );
     wpsi_start = 2;
     if (p.ri2 == p.ri3) {
         // C is skipped
@@ -1936,7 +1936,7 @@ void dtw_expand_wps_slice(seq_t *wps, seq_t *full,
     }
 
     // D. Rows: MAX(overlap_left_ri, overlap_right_ri) < ri <= l1
-    min_ci = p.ri3 + 1 - p.window - p.ldiff;
+    min_ci = p.ri3 + 1 - p.window - p.ldiffr;
     wpsi_start = 2;
     if (p.ri2 == p.ri3) {
         // C is skipped
@@ -2171,7 +2171,7 @@ seq_t dtw_warping_paths_affinity_ndim(seq_t *wps,
     // D. Rows: MAX(overlap_left_ri, overlap_right_ri) < ri <= l1
     // [x 0 0 0 0]
     // [x x 0 0 0]
-    min_ci = MAX(0, p.ri3 + 1 - p.window - p.ldiff );
+    min_ci = MAX(0, p.ri3 + 1 - p.window - p.ldiffr );
     wpsi_start = 2;
     if (p.ri2 == p.ri3) {
         // C is skipped
@@ -2509,7 +2509,7 @@ seq_t dtw_warping_paths_affinity_ndim_euclidean(seq_t *wps,
     // D. Rows: MAX(overlap_left_ri, overlap_right_ri) < ri <= l1
     // [x 0 0 0 0]
     // [x x 0 0 0]
-    min_ci = MAX(0, p.ri3 + 1 - p.window - p.ldiff );
+    min_ci = MAX(0, p.ri3 + 1 - p.window - p.ldiffr );
     wpsi_start = 2;
     if (p.ri2 == p.ri3) {
         // C is skipped
@@ -2769,7 +2769,7 @@ void dtw_expand_wps_slice_affinity(seq_t *wps, seq_t *full,
     }
 
     // D. Rows: MAX(overlap_left_ri, overlap_right_ri) < ri <= l1
-    min_ci = p.ri3 + 1 - p.window - p.ldiff;
+    min_ci = p.ri3 + 1 - p.window - p.ldiffr;
     wpsi_start = 2;
     if (p.ri2 == p.ri3) {
         // C is skipped
@@ -3074,7 +3074,7 @@ idx_t dtw_wps_loc(DTWWps* p, idx_t r, idx_t c, idx_t l1, idx_t l2) {
     }
 
     // D.
-    min_ci = MAX(0, p->ri3 + 1 - p->window - p->ldiff);
+    min_ci = MAX(0, p->ri3 + 1 - p->window - p->ldiffr);
     max_ci = l2 + 1;
     wpsi_start = 2;
     if (p->ri2 == p->ri3) {
@@ -3158,7 +3158,7 @@ idx_t dtw_wps_loc_columns(DTWWps* p, idx_t r, idx_t *cb, idx_t *ce, idx_t l1, id
     }
 
     // D.
-    min_ci = MAX(0, p->ri3 + 1 - p->window - p->ldiff);
+    min_ci = MAX(0, p->ri3 + 1 - p->window - p->ldiffr);
     max_ci = l2 + 1;
     wpsi_start = 2;
     if (p->ri2 == p->ri3) {
@@ -3264,7 +3264,7 @@ idx_t dtw_wps_max(DTWWps* p, seq_t *wps, idx_t *r, idx_t *c, idx_t l1, idx_t l2)
     }
 
     // D.
-    min_ci = MAX(0, p->ri3 + 1 - p->window - p->ldiff);
+    min_ci = MAX(0, p->ri3 + 1 - p->window - p->ldiffr);
     max_ci = l2 + 1;
     wpsi_start = 2;
     if (p->ri2 == p->ri3) {
@@ -3325,7 +3325,7 @@ idx_t dtw_best_path(seq_t *wps, idx_t *i1, idx_t *i2, idx_t l1, idx_t l2,
     idx_t ri_width = p.width * rip;
 
     // D. ri3 <= ri < l1
-    min_ci = p.ri3 + 1 - p.window - p.ldiff;
+    min_ci = p.ri3 + 1 - p.window - p.ldiffr;
     wpsi_start = 2;
     if (p.ri2 == p.ri3) {
         wpsi_start = min_ci + 1;
@@ -3563,7 +3563,7 @@ idx_t dtw_best_path_isclose(seq_t *wps, idx_t *i1, idx_t *i2, idx_t l1, idx_t l2
     idx_t ri_width = p.width * rip;
 
     // D. ri3 <= ri < l1
-    min_ci = p.ri3 + 1 - p.window - p.ldiff;
+    min_ci = p.ri3 + 1 - p.window - p.ldiffr;
     wpsi_start = 2;
     if (p.ri2 == p.ri3) {
         wpsi_start = min_ci + 1;
@@ -3824,7 +3824,7 @@ idx_t dtw_best_path_prob(seq_t *wps, idx_t *i1, idx_t *i2, idx_t l1, idx_t l2, s
     // printf("avg = %f\n", avg);
     
     // D. ri3 <= ri < l1
-    min_ci = p.ri3 + 1 - p.window - p.ldiff;
+    min_ci = p.ri3 + 1 - p.window - p.ldiffr;
     wpsi_start = 2;
     if (p.ri2 == p.ri3) {
         // C is skipped
@@ -5118,7 +5118,7 @@ void dtw_print_wps(seq_t * wps, idx_t l1, idx_t l2, DTWSettings* settings) {
     }
     
     // D. Rows: MAX(overlap_left_ri, overlap_right_ri) < ri <= l1
-    min_ci = p.ri3 + 1 - p.window - p.ldiff;
+    min_ci = p.ri3 + 1 - p.window - p.ldiffr;
     wpsi_start = 2;
     if (p.ri2 == p.ri3) {
         // C is skipped
